@@ -516,7 +516,7 @@ func (s *verifC1011Suite) runHistories(c *C, prop string) {
 	chk.Assume("nothing is spliced after check-rerefresh (its handler refuses dependents by design)")
 	chk.Floor("faulted_changes", 50)
 
-	nHist := kit.Scale(len(directedHistories)+4, len(directedHistories)+30)
+	nHist := kit.Scale(len(directedHistories)+4, len(directedHistories)+6)
 	only := kit.OnlyCase()
 	for hi := 0; hi < nHist; hi++ {
 		if only >= 0 && hi != only {
